@@ -24,6 +24,9 @@ let () =
             try
               (match kind with
                | "flw" -> Flw_driver.run_case rest
+               | "spec" -> Lg_driver.run_spec_case rest
+               | "specb" -> Lg_driver.run_specb_case rest
+               | "lg" -> Lg_driver.run_lg_case rest
                | _ -> "MODEL-ERROR unknown kind " ^ kind)
             with e -> "MODEL-ERROR " ^ Printexc.to_string e in
           print_string id; print_char ' '; print_endline out
